@@ -2557,12 +2557,28 @@ impl<'a> Parser<'a> {
         let saved_current = self.current.clone();
         let saved_previous = self.previous.clone();
         let checkpoint = self.lexer.checkpoint();
-        if self.parse_optional_type_parameters().is_ok()
-            && self.check(&TokenKind::LParen)
-            && let Ok(expr) = self.parse_assignment_expression()
-            && matches!(expr, Expression::ArrowFunction(_))
-        {
-            return Ok(Some(expr));
+        if self.parse_optional_type_parameters().is_ok() && self.check(&TokenKind::LParen) {
+            // Cheap look-ahead first: an arrow function has `=>` or `: Type =>` after the `)`
+            // matching this `(`; parsing the group speculatively at every level of
+            // `<A>(<A>(<A>(1)))` would double the work per level
+            let after_lt = self.lexer.checkpoint();
+            let after_lt_current = self.current.clone();
+            let after_lt_previous = self.previous.clone();
+            self.advance();
+            let follow = self.token_after_matching_paren();
+            self.lexer.restore(after_lt);
+            self.current = after_lt_current;
+            self.previous = after_lt_previous;
+            let may_be_arrow = !matches!(
+                follow,
+                Some(kind) if !matches!(kind, TokenKind::Arrow | TokenKind::Colon)
+            );
+            if may_be_arrow
+                && let Ok(expr) = self.parse_assignment_expression()
+                && matches!(expr, Expression::ArrowFunction(_))
+            {
+                return Ok(Some(expr));
+            }
         }
         self.current = saved_current;
         self.previous = saved_previous;
@@ -3338,7 +3354,9 @@ impl<'a> Parser<'a> {
                 self.current = type_saved_current;
             }
 
-            // No arrow - might be parenthesized expression, rollback and re-parse
+            // No arrow - might be parenthesized expression, rollback and re-parse (and remember
+            // it: the re-parse of an enclosing group must not repeat this attempt)
+            self.failed_arrow_starts.insert(start.start);
             self.lexer.restore(lexer_checkpoint);
             self.current = saved_current;
             self.previous = saved_previous;
@@ -3992,6 +4010,14 @@ impl<'a> Parser<'a> {
     /// A primary type with its prefix operators (`readonly T[]`, `-1`, `abstract new () => T`,
     /// `<U>(x: U) => U`, `import("m").T`, `this`) and postfix `[]` / `[K]`
     fn parse_primary_type(&mut self) -> Result<TypeAnnotation, JsError> {
+        // (prefix operators recurse: keyof keyof ... T)
+        self.enter_nesting()?;
+        let result = self.parse_primary_type_unguarded();
+        self.nesting -= 1;
+        result
+    }
+
+    fn parse_primary_type_unguarded(&mut self) -> Result<TypeAnnotation, JsError> {
         let start = self.current.span;
         let keyword_any = |span| {
             TypeAnnotation::Keyword(TypeKeyword {
